@@ -432,18 +432,70 @@ class PathTrace:
         return f"<{self.conds} -> {self.end}>"
 
 
-def path_traces(fn_node, raising_calls=None, limit=3000, alpha=True) -> List[PathTrace]:
+def path_traces(fn_node, raising_calls=None, limit=3000, alpha=True, pathsens=False) -> List[PathTrace]:
     """All acyclic paths of a (small) function as (conditions, end) pairs; loops are entered at most once.
-    Texts are canonical (aliases inlined, comprehension variables numbered); explicit raises and returns end a path."""
+    Texts are canonical (aliases inlined, comprehension variables numbered); explicit raises and returns end a path.
+    pathsens: a local assigned on the path denotes, from there on, the expression it was assigned on *this* path
+    (`r = f(); if c: r = r * 2; return r` gives `return f() * 2` and `return f()`)."""
     g = CFG(fn_node, raising_calls=raising_calls)
     rd = ReachingDefs(g)
     out: List[PathTrace] = []
     count = [0]
+    env_stack: List[Dict[str, ast.AST]] = [{}]
+
+    def subst_env(e):
+        env = env_stack[-1]
+        if not env or not any(isinstance(x, ast.Name) and x.id in env for x in ast.walk(e)):
+            return e
+
+        class S(ast.NodeTransformer):
+            def visit_Name(self, x):
+                if isinstance(x.ctx, ast.Load) and x.id in env:
+                    return ast_copy(env[x.id])
+                return x
+
+            def visit_Lambda(self, x):
+                return x
+
+        return S().visit(ast_copy(e))
 
     def text(e, n):
+        if pathsens:
+            e = subst_env(e)
         return renumber_local(rd.acanon(e, n)) if alpha else rd.canon(e, n)
 
+    def step_env(n):
+        """environment after node n (pathsens only)"""
+        env = env_stack[-1]
+        killed = [d.name for d in rd.gen.get(n.id, [])]
+        if not killed:
+            return env
+        env = dict(env)
+        if n.kind == "stmt" and isinstance(n.ast, ast.Assign) and len(n.ast.targets) == 1 and isinstance(n.ast.targets[0], ast.Name) and not _is_state_init(n.ast.value) \
+                and not any(isinstance(x, (ast.Yield, ast.YieldFrom, ast.Await, ast.NamedExpr)) for x in ast.walk(n.ast.value)):
+            val = subst_env(n.ast.value)
+            for k in killed:
+                env.pop(k, None)
+            env[n.ast.targets[0].id] = val
+        else:
+            for k in killed:
+                env.pop(k, None)
+        # a binding that mentions a re-bound name is stale
+        for k in list(env):
+            if k not in killed and any(isinstance(x, ast.Name) and x.id in killed for x in ast.walk(env[k])):
+                env.pop(k)
+        return env
+
     def rec(n, conds, calls, nodes, used):
+        if pathsens:
+            env_stack.append(env_stack[-1])
+            try:
+                return rec0(n, conds, calls, nodes, used)
+            finally:
+                env_stack.pop()
+        return rec0(n, conds, calls, nodes, used)
+
+    def rec0(n, conds, calls, nodes, used):
         count[0] += 1
         if count[0] > limit * 20 or len(out) > limit:
             raise_undecided(fn_node)
@@ -472,6 +524,8 @@ def path_traces(fn_node, raising_calls=None, limit=3000, alpha=True) -> List[Pat
             if isinstance(n.ast, ast.Expr) and isinstance(n.ast.value, ast.Call):
                 calls = calls + [text(n.ast.value, n)]
         succ = n.succ
+        if pathsens:
+            env_stack[-1] = step_env(n)
         if n.kind == "test":
             t = text(n.ast, n)
             for m, l in succ:
